@@ -58,10 +58,11 @@ def scripts(draw, tier):
     c["criterion_arg"] = "default" if (crit == "relative" and draw(st.booleans())) else "explicit"    # 'relative' is the documented default
     c["rounds"] = draw(st.sampled_from([1, 1, 2]))      # a second fit() re-using the same evaluator and stopper (epoch numbers restart)
     c["clear_between"] = draw(st.booleans())           # ... with or without evaluator.clear_history() in between
-    if draw(st.integers(0, 3)) == 0:
+    if draw(st.integers(0, 3)) == 0 or (crit == "variance" and draw(st.integers(0, 3)) > 0):
         # tolerance placed a few 1e-8 (relative) above or below one of the deviations the run will actually see: the decision is still well
         # defined in double precision (the reference cuts runs only within 1e-9), but not for an implementation that loses digits
-        c["tol_near"] = {"j": draw(st.integers(0, 11)), "sign": draw(st.sampled_from([-1, 1])), "delta": draw(st.sampled_from([3e-8, 1e-7, 1e-6]))}
+        # "j": mostly the first comparisons the run makes (later ones are often pre-empted by an earlier stop)
+        c["tol_near"] = {"j": draw(st.sampled_from([0, 0, 1, 2, 3, 5, 8, 11])), "sign": draw(st.sampled_from([-1, 1])), "delta": draw(st.sampled_from([1e-8, 1e-8, 3e-8, 1e-7, 1e-6]))}
     c["stopper_first"] = draw(st.integers(0, 3)) == 0    # the stopper listed BEFORE its evaluator: at epoch e it sees the evaluations recorded up to the previous epoch
     c["se"] = draw(st.sampled_from([1, 1, 1, 2, 3, 4]))  # starting_epoch: epochs are numbered se..E, periods refer to the epoch NUMBER
     c["extra_names"] = draw(st.booleans())              # the evaluator tracks other quantities besides the monitored one
